@@ -46,10 +46,22 @@
      size) and a position in frame_decode's parse of the whole frame (Proofs/FrameDChunk.v,
      invariant CInv: "what was consumed so far, followed by any g that the rest of the
      specification accepts from here, is accepted with that result"), stage by stage.
-   Partial (see the _full_statement below): the COMPLETENESS half - on a valid frame every
-     chunking reaches completion - is not proved at model level; it is checked on the real
-     code by the harness (same verdict under every chunking, complete => content equals the
-     extracted Spec.frame_decode), and the per-call tie makes the model follow the code. *)
+   - C08_chunking_complete_partial / C08_chunking_reaches_partial /
+     C08_chunking_independent_noskip_partial: the converse, with skipChecksums off.  On an input
+     that Spec.frame_decode accepts (all checksums verified), from a context at the start of a
+     frame, whatever the pieces and capacities: NO call fails; when the calls end the verdict is
+     the specification's (content, frame length); and they do end - with pieces of >= 1 byte and
+     capacities >= 1, |input| + |content| + 1 calls always suffice (each call that does not end
+     the frame consumes or produces a byte; when the input is exhausted only the end of the
+     frame can be left).  Hence verdict and content are independent of the chunking.
+     The simulation is two-way (CInv's continuation clause is an equivalence), every error
+     return of the stage machine is justified by "the specification rejects every
+     continuation", hints are shown >= 0.
+   Partial (see the _full_statement below): the converse is proved for skipChecksums OFF only;
+     with skipChecksums ON (where the decoder still verifies the checksum of compressed blocks,
+     C08_example_skip_asymmetry) only the soundness half is proved at model level; the
+     harness checks the real code under both settings (same verdict under every chunking,
+     complete => content equals the extracted Spec.frame_decode). *)
 From Coq Require Import ZArith List Lia Bool.
 From LZ4V Require Import Spec.BlockSpec Spec.XXH32 Spec.FrameSpec Gen.Consts Model.FrameD.
 From LZ4V Require Import Proofs.FrameDHeader Proofs.FrameDProofs Proofs.FrameDSound Proofs.FrameDChunk.
@@ -139,7 +151,43 @@ Theorem C08_chunking_sound_partial : forall bdec o dict k s data ns caps content
 Proof. exact chunked_sound. Qed.
 Print Assumptions C08_chunking_sound_partial.
 
-(* ---- the part that is not proved at model level: completeness under chunking ---- *)
+(* completeness under chunking, skipChecksums off: no call fails on a valid frame, and when the
+   calls end the verdict is the specification's *)
+Theorem C08_chunking_complete_partial : forall bdec o dict k s data ns caps content rest,
+  o_skip o = false ->
+  wf s -> d_stage s = GetFrameHeader -> d_remaining s = 0 -> d_hist s = dict -> d_skip s = false ->
+  bytes_ok data = true -> Forall (fun c => 0 <= c) caps ->
+  frame_decode bdec false dict data = Some (content, rest) ->
+  drive bdec o k s data ns caps [] 0 <> VError /\
+  (drive bdec o k s data ns caps [] 0 <> VMore ->
+   drive bdec o k s data ns caps [] 0 = VComplete content (zlen data - zlen rest)).
+Proof. exact chunked_complete. Qed.
+Print Assumptions C08_chunking_complete_partial.
+
+(* ... and they do end: any pieces >= 1 byte, any capacities >= 1, |input| + |content| + 1 calls *)
+Theorem C08_chunking_reaches_partial : forall bdec o dict s data ns caps content rest,
+  o_skip o = false -> o_dstnull o = false ->
+  wf s -> d_stage s = GetFrameHeader -> d_remaining s = 0 -> d_hist s = dict -> d_skip s = false ->
+  bytes_ok data = true -> Forall (fun n => 1 <= n) ns -> Forall (fun c => 1 <= c) caps ->
+  frame_decode bdec false dict data = Some (content, rest) ->
+  let K := Z.to_nat (zlen data + zlen content + 1) in
+  (K <= length ns)%nat -> (K <= length caps)%nat ->
+  drive bdec o K s data ns caps [] 0 = VComplete content (zlen data - zlen rest).
+Proof. exact chunked_reaches. Qed.
+Print Assumptions C08_chunking_reaches_partial.
+
+(* the full statement below, for skipChecksums off *)
+Theorem C08_chunking_independent_noskip_partial : forall bdec stable dstnull data ns caps content rest,
+  bytes_ok data = true ->
+  Forall (fun n => 1 <= n) ns -> Forall (fun c => 1 <= c) caps ->
+  frame_decode bdec false [] data = Some (content, rest) ->
+  (exists k, drive bdec (mkO stable false dstnull) k dctx_init data ns caps [] 0 <> VMore) ->
+  exists k, drive bdec (mkO stable false dstnull) k dctx_init data ns caps [] 0
+            = VComplete content (zlen data - zlen rest).
+Proof. exact chunked_independent_noskip. Qed.
+Print Assumptions C08_chunking_independent_noskip_partial.
+
+(* ---- the part that is not proved at model level: the same with skipChecksums on ---- *)
 (* (the frame is valid with ALL checksums verified: under skipChecksums the code - and the model -
    still verifies the checksum of compressed blocks, see C08_example_skip_asymmetry) *)
 Definition C08_chunking_independent_full_statement : Prop :=
@@ -181,6 +229,17 @@ Example C08_example_chunked :
   drive spec_decode (mkO false false false) 3 dctx_init data [17; 13; 11] [2; 2; 2] [] 0 = VComplete [97; 98; 99] 30
   /\ frame_decode spec_decode false [] data = Some ([97; 98; 99], [9; 9]).
 Proof. vm_compute. split; reflexivity. Qed.
+
+(* the completeness theorems apply: a valid frame, 1-byte pieces, capacity 1: 36 calls suffice *)
+Example C08_example_reaches :
+  let hdr := [4; 34; 77; 24; 108; 64; 3; 0; 0; 0; 0; 0; 0; 0; 41] in
+  let body := [3; 0; 0; 128; 97; 98; 99; 0; 0; 0; 0] in
+  let crc := le_bytes 4 (xxh32 0 [97; 98; 99]) in
+  let data := hdr ++ body ++ crc ++ [9; 9] in
+  frame_decode spec_decode false [] data = Some ([97; 98; 99], [9; 9]) /\
+  Z.to_nat (zlen data + zlen [97; 98; 99] + 1) = 36%nat /\
+  drive spec_decode (mkO false false false) 36 dctx_init data (repeat 1 36) (repeat 1 36) [] 0 = VComplete [97; 98; 99] 30.
+Proof. vm_compute. repeat split; reflexivity. Qed.
 
 Example C08_example_header :
   parse_desc [108; 64; 3; 0; 0; 0; 0; 0; 0; 0; 41]
